@@ -67,8 +67,8 @@ class Condition(torch.nn.Module):
         data_functions = dict(data_functions)
         for fun in data_functions:
             data_functions[fun] = UserFunction(data_functions[fun])
-        if isinstance(sampler, StaticSampler):
-            # functions can be evaluated once
+        if sampler.is_static:
+            # functions can be evaluated once (the points never change)
             for fun in data_functions:
                 points = sampler.sample_points()
                 data_fun_points = data_functions[fun](points)
@@ -727,7 +727,7 @@ class IntegroPINNCondition(Condition):
 
         self.data_functions = self._setup_data_functions(data_functions, self.sampler)
 
-        if isinstance(self.sampler, StaticSampler):
+        if self.sampler.is_static:
             # pre-evaluated data needs the same integral axis as the points in forward
             for fun in self.data_functions:
                 self.data_functions[fun].fun = self.data_functions[fun].fun.unsqueeze(1)
